@@ -2,6 +2,7 @@ package selection
 
 import (
 	"grog/internal/config"
+	"grog/internal/dag"
 	"grog/internal/model"
 	"slices"
 )
@@ -25,6 +26,18 @@ func nodeMatchesPlatform(node model.BuildNode) bool {
 	}
 
 	return true
+}
+
+// standsFor returns the node whose type, tags and platforms decide whether node is selected:
+// an alias stands for the target it resolves to (nil if there is none), any other node for itself.
+func standsFor(graph *dag.DirectedTargetGraph, node model.BuildNode) model.BuildNode {
+	if node.GetType() != model.AliasNode {
+		return node
+	}
+	if target := graph.ResolveTarget(node); target != nil {
+		return target
+	}
+	return nil
 }
 
 func TargetMatchesTypeSelection(target *model.Target, targetType TargetTypeSelection) bool {
